@@ -192,6 +192,25 @@ def case(spec, log):
                 del made[:]
                 w = None     # the harness must not keep workers alive through its own temporaries
                 quiescent_check('race step%d' % step)
+            elif name == 'restart_fail':
+                # restart() of a worker that does not stop in time raises - the worker is still alive and has to stay listed
+                cls, pers = get_class('PersistentThreadWorker')
+                w = cls(vtargets.restart_target)
+                w.enqueue('u', kind='swallow1')
+                workers[created] = w
+                created += 1
+                stats['created'] += 1
+                time.sleep(0.1)
+                try:
+                    w.restart(0.2, timeout=0.1)
+                    stats['restart_fail_did_not_raise'] = stats.get('restart_fail_did_not_raise', 0) + 1
+                except RuntimeError:
+                    stats['restart_refused'] = stats.get('restart_refused', 0) + 1
+                quiescent_check('restart_fail step%d' % step)
+                # the second request gets through: the worker ends and must leave the registry again
+                w.terminate(timeout=5, force=False)
+                w = None
+                quiescent_check('restart_fail-ended step%d' % step)
             elif name == 'restart_race':
                 # persistent workers are restarted by one thread while other threads sweep the registry
                 pers = [w for w in workers.values() if w.is_persistent and w._do_run]
@@ -294,6 +313,8 @@ def gen_history(r, size, heavy):
             ops.append(['concurrent', r.randint(1, 4)])
         elif x < 0.945:
             ops.append(['race', r.randint(3, 8)])
+        elif x < 0.955:
+            ops.append(['restart_fail'])
         elif x < 0.97 and any(o[0] == 'create' and o[1].startswith('Persistent') and o[2] != 'norun' for o in ops):
             ops.append(['restart_race', r.randint(3, 10)])
         else:
@@ -326,6 +347,7 @@ def run(tier):
         n = 40 if cls == 'PersistentThreadWorker' else 6
         jobs.append(dict(ops=[['create', cls, 'loop'], ['create', cls, 'loop'], ['restart_race', n], ['check'], ['restart_race', n], ['check'], ['autoclose'], ['check']], heavy=cls != 'PersistentThreadWorker'))
         jobs.append(dict(ops=[['create', cls, 'quick'], ['create', cls, 'loop'], ['finish'], ['check'], ['restart_race', n], ['check'], ['drop'], ['check'], ['autoclose'], ['check']], heavy=cls != 'PersistentThreadWorker'))
+    jobs.append(dict(ops=[['create', 'ThreadWorker', 'loop'], ['restart_fail'], ['check'], ['restart_fail'], ['check'], ['autoclose'], ['check'], ['drop'], ['check']], heavy=False))
     wd = workdir('c19')
 
     def one(ij):
